@@ -60,6 +60,57 @@ def l4(rep):
     rep.floor("sibling pairs compared", n, 25)
 
 
+def l5(rep):
+    """The float decomposition used by the portable object-file codec and by the big-float conversions takes the sign from the
+    representation's sign bit (the same mask the assembler sets): a comparison with 0.0 cannot see the sign of -0.0."""
+    f = common.extract("xfloat.c", all_trees=True)
+    n = 0
+    for fam in ("sf", "df", "xsf", "xdf"):
+        dis, asm = f.func(fam + "Dissemble"), f.func(fam + "Assemble")
+        ps = [p for p in dis["params"] if p["n"] == "psign"]
+        sg = [p for p in asm["params"] if p["n"] == "sign"]
+        if not ps or not sg:
+            raise AnalysisBroken("%sDissemble/%sAssemble: sign parameter not found" % (fam, fam))
+        stores = []
+        for x in walk(dis["body"]):
+            if x["k"] == "BinaryOperator" and x["op"] == "=":
+                l = strip(x["c"][0])
+                if l is not None and l["k"] == "UnaryOperator" and l.get("op") == "*" and (strip(l["c"][0]) or {}).get("n") == "psign":
+                    stores.append(x)
+        if len(stores) != 1:
+            raise AnalysisBroken("%sDissemble: expected one store to *psign, found %d" % (fam, len(stores)))
+        rhs = stores[0]["c"][1]
+        masks = set()
+        for y in walk(rhs):
+            for m in (y.get("mac"), y.get("imac")):
+                if m and m.endswith("_SignMask"):
+                    masks.add(m)
+        fcmp = [y for y in walk(rhs) if y["k"] == "BinaryOperator" and y["op"] in ("<", ">", "<=", ">=") and
+                any("float" in (c.get("t") or "") or "double" in (c.get("t") or "") for c in y["c"])]
+        amasks = set()
+        for y in walk(asm["body"]):
+            if y["k"] == "ConditionalOperator" and (strip(y["c"][0]) or {}).get("n") == "sign":
+                for z in walk(y):
+                    for m in (z.get("mac"), z.get("imac")):
+                        if m and m.endswith("_SignMask"):
+                            amasks.add(m)
+        if len(amasks) != 1:
+            raise AnalysisBroken("%sAssemble: `sign ? <mask> : 0` not recognised (%s)" % (fam, sorted(amasks)))
+        key = "sign-from-bit:%s" % fam
+        where = "xfloat.c:%d (%sDissemble)" % (stores[0]["l"], fam)
+        n += 1
+        if fcmp:
+            rep.violation("L5", key, where, "the sign is taken from a comparison of the value with 0.0: -0.0 is reported as positive, so a "
+                          "negative zero stored in an object file (or converted to a big float) comes back as +0.0 and 1/x changes sign")
+        elif masks == amasks:
+            rep.ok("L5", key, sample={"mask": sorted(masks)})
+        elif not masks:
+            raise AnalysisBroken("%sDissemble: the store to *psign uses neither a sign mask nor a comparison" % fam)
+        else:
+            rep.violation("L5", key, where, "the sign is read with %s but written with %s" % (sorted(masks), sorted(amasks)))
+    rep.floor("float decompositions", n, 4)
+
+
 def run(tier, only=None):
     rep = common.Report("C19", tier, EXPLANATION)
     # ---- L4 first: it needs nothing from C04 ----
@@ -170,6 +221,7 @@ def run(tier, only=None):
             rep.violation("L2", key, "util.c:%d (DFloatSprint)" % c["l"],
                           "d == 0.0 is printed as the fixed text %s whatever its sign: a folded constant -0.0 becomes +0.0 in generated C, "
                           ".fm and Lisp output (1/x changes from -inf to +inf)" % texts)
+    l5(rep)
     # ---- L3 ----
     f_buf = common.extract("buffer.c", all_trees=True)
     f_lib = common.extract("lib.c", trees=["libPutHeader", "libGetHeader"])
